@@ -180,6 +180,7 @@ func checkC02(p *Prog, c *Check) {
 	c.Rule("R2.2", "the first item emitted is the first byte: type code of the packet in the upper nibble and the reserved bits of the specification in the lower (PUBLISH: DUP/QoS/RETAIN)")
 	c.Rule("R2.3", "the items after the fixed header are those of the specification for that packet type, in its order, each with its wire type and from the right field; optional items are present exactly as their presence rule says (will, user name and password by the CONNECT flags; packet identifier iff QoS 1/2)")
 	c.Rule("R2.4", "every length prefix equals the bytes it covers: remaining length = everything after it; property length = the properties that follow")
+	c.Rule("R2.7", "the values written are the values set: no list field that may hold the caller's own slice is grown in place, and no packet is copied by value (two packets would then share list storage and overwrite each other's elements before encoding) — shared with C14 R14.7/R14.8")
 	c.Rule("R2.6", "the exported CONNECT flag constants and subscription option constants have the bit values of the specification (§3.1.2.3, §3.8.3.1)")
 	c.Rule("R2.5", "optional-section chain: where trailing sections may be omitted (PUBACK family, DISCONNECT, AUTH), properties present ⇒ property length present ⇒ reason code present")
 	c.Explanation = "Oracle: the MQTT v5.0 layout table carried by the checker (ordered fields, presence rules, allowed property sets, wire kinds), keyed by exported names. For every abstract well-formed packet state (same generator as C01) the encoder's event sequence — obtained by evaluating its SSA form with the wire primitives observed — is walked against the table. Minimality of the variable byte integers themselves is C15's subject; primitive encodings are C01 R1.4."
@@ -296,6 +297,15 @@ func checkC02(p *Prog, c *Check) {
 	}
 	checkIdentConstants(p, c)
 	checkFlagConstants(p, c)
+	// R2.7: what was set through the API cannot be overwritten behind the packet's back (shared with C14 R14.7/R14.8)
+	{
+		sub := NewCheck(c.ID, p)
+		rulePacketsByPointerOnly(p, sub, "R2.7")
+		ruleNoAppendOntoCallerStorage(p, sub, "R2.7")
+		for _, o := range sub.Obls {
+			c.add("R2.7", o.Construct, o.Pos, o.Status, o.Detail)
+		}
+	}
 	// structural part of R2.4 (shared with C10 R10.8): for all states, not only the abstract ones
 	top := map[*ssa.Function]bool{}
 	for _, tn := range packetTypeNames() {
